@@ -393,11 +393,11 @@ SAMPLE = """     diagonalizing the dynamical matrix ...
 
  q =      -0.3333      0.3333      0.0000
  **************************************************************************
-     freq (    1) =       6.000000 [THz] =     200.138400 [cm-1]
+     freq (    1) =      -3.701143 [THz] =    -123.456789 [cm-1]
  (  0.250000  -0.250000     0.500000   0.125000    -0.750000   0.000000   )
      freq (    2) =       7.000000 [THz] =     233.494800 [cm-1]
  (  0.000000   0.600000     0.800000   0.000000     0.000000   0.000000   )
-     freq (    3) =       8.500000 [THz] =     283.529400 [cm-1]
+     freq (    3) =      30.629400 [THz] =    1021.685287 [cm-1]
  (  0.300000   0.300000     0.300000  -0.300000     0.100000   0.900000   )
  **************************************************************************
 """
@@ -469,9 +469,9 @@ def r_load(ctx, model):
             ((2, 4.0, 133.4256), (0.7 + 0j, 0.7j, 0.1 - 0.1j)),
             ((3, 5.0, 166.782), (0j, 1 + 0j, 0j)))),
         ((-0.3333, 0.3333, 0.0), (
-            ((1, 6.0, 200.1384), (0.25 - 0.25j, 0.5 + 0.125j, -0.75 + 0j)),
+            ((1, -3.701143, -123.456789), (0.25 - 0.25j, 0.5 + 0.125j, -0.75 + 0j)),
             ((2, 7.0, 233.4948), (0.6j, 0.8 + 0j, 0j)),
-            ((3, 8.5, 283.5294), (0.3 + 0.3j, 0.3 - 0.3j, 0.1 + 0.9j)))),
+            ((3, 30.6294, 1021.685287), (0.3 + 0.3j, 0.3 - 0.3j, 0.1 + 0.9j)))),
     )
 
     def close(a, b):
